@@ -287,6 +287,32 @@ class Resolver:
             return ('builtin',)
         return ('unknown',)
 
+    # ------------------------------------------------------------------ functools.partial
+    def partial_of(self, func_expr, module, func):
+        """If `func_expr` is a local name bound once to functools.partial(f, ...): that partial(...) Call node, else None."""
+        if not isinstance(func_expr, ast.Name) or getattr(func_expr, '_parent', None) is None:
+            return None
+        sc = self.scope_of(func_expr)
+        if sc[0] != 'local':
+            return None
+        binds = sc[2]
+        if len(binds) != 1 or binds[0][0] != 'assign' or not isinstance(binds[0][1], (ast.Assign, ast.AnnAssign)):
+            return None
+        v = binds[0][1].value
+        if isinstance(v, ast.Call) and v.args and isinstance(v.func, (ast.Name, ast.Attribute)):
+            pf = self.resolve_expr_static(v.func, module, func)
+            if isinstance(pf, tuple) and pf[0] == 'external' and pf[1] == 'functools.partial':
+                return v
+        return None
+
+    def effective_call(self, call, module, func):
+        """The call with the arguments a functools.partial pre-bound merged in (a new Call node), or the call itself."""
+        pc = self.partial_of(call.func, module, func)
+        if pc is None:
+            return call
+        new = ast.Call(func=pc.args[0], args=list(pc.args[1:]) + list(call.args), keywords=list(pc.keywords) + list(call.keywords))
+        return ast.copy_location(new, call)
+
     # ------------------------------------------------------------------ static expression resolution
     def resolve_expr_static(self, expr, module, func):
         """Resolve an expression that denotes a function / class / module statically.
@@ -310,6 +336,13 @@ class Resolver:
                     v = binds[0][1].value if isinstance(binds[0][1], (ast.Assign, ast.AnnAssign)) else None
                     if isinstance(v, ast.Lambda):
                         return self.repo.func_of_node[id(v)]
+                    # name = functools.partial(f, ...): calling the name calls f (with some parameters pre-bound)
+                    if isinstance(v, ast.Call) and v.args and isinstance(v.func, (ast.Name, ast.Attribute)):
+                        pf = self.resolve_expr_static(v.func, module, func)
+                        if isinstance(pf, tuple) and pf[0] == 'external' and pf[1] == 'functools.partial':
+                            tgt = self.resolve_expr_static(v.args[0], module, func)
+                            if isinstance(tgt, FuncInfo):
+                                return tgt
                 return ('localvar', fi, binds)
             if sc[0] == 'module':
                 r = self.lookup_symbol(sc[1].name, expr.id)
